@@ -44,7 +44,7 @@ def record(args):
             inp, r = cases.build(dassh, case, str(d), **opts.get('kw', {}))
             exact = all(drive.is_const_material(a.active_region.coolant)
                         for a in r.assemblies)
-            ob = trackobs.TrackObs(r, exact)
+            ob = trackobs.TrackObs(r, exact, case=case.get('_truth', case))
             crash = None
             try:
                 with drive.Recorder(dassh, r, [ob]) as rec:
@@ -75,7 +75,9 @@ def record(args):
                 trk['duct'] = [[(ob.runD[i][s_], hd.get((i, s_), 0.0))
                                 for s_ in range(ob.nslots[i])]
                                for i in range(len(r.assemblies))]
-                tables_ok = tables.check_summary(dassh, r, str(d), trk)
+                tables_ok = tables.check_summary(
+                    dassh, r, str(d), trk,
+                    units=case.get('setup', {}).get('Units'))
                 tables_msg = list(tables.LAST_MISMATCH)
             cfg, ev = ob.events(tables_ok)
             if crash:
